@@ -62,8 +62,8 @@ def touchGo (f : Json → Json) : List Bytes → Json → Bool → Except Err Js
   | [], j, ex => .ok (f (if ex then j else .none))
   | k :: ks, .obj kvs, ex =>
     let child := (lookup k kvs).getD .none
-    let (child, ex) := if child.isNone then (Json.obj [], false) else (child, ex)
-    match touchGo f ks child ex with
+    let fresh := child.isNone        -- `j->type == none_`: the node becomes an object and `exists = false`
+    match touchGo f ks (if fresh then .obj [] else child) (!fresh && ex) with
     | .ok c => .ok (.obj (insert k c kvs))
     | .error e => .error e
   | _ :: _, _, _ => .error .notObject
